@@ -1134,7 +1134,7 @@ class Molecules:
 
 def _is_boolean_array(a: Any) -> TypeGuard[NDArray[np.bool_]]:
     if isinstance(a, pl.Series):
-        return a.dtype is pl.Boolean
+        return a.dtype == pl.Boolean
     else:
         return getattr(a, "dtype", None) == "bool"
 
